@@ -135,6 +135,14 @@ class _E1(ast.NodeTransformer):
             n.ops = [MIRROR[type(n.ops[0])]()]
         return n
 
+    def visit_BinOp(self, n):
+        self.generic_visit(n)
+        # x * x is x ** 2 (numpy squares by multiplying; exact for integers and correctly rounded for floats either way)
+        if isinstance(n.op, ast.Mult) and ast.dump(n.left) == ast.dump(n.right) and \
+                not any(isinstance(x, (ast.Call, ast.NamedExpr, ast.Await, ast.Yield, ast.YieldFrom)) for x in ast.walk(n.left)):
+            return ast.copy_location(ast.BinOp(left=n.left, op=ast.Pow(), right=ast.Constant(value=2)), n)
+        return n
+
     def visit_UnaryOp(self, n):
         self.generic_visit(n)
         # De Morgan: not (A or B) == not A and not B   (same short-circuit order)
@@ -189,6 +197,22 @@ class _E1(ast.NodeTransformer):
                             return clone(e) if m.id == v and isinstance(m.ctx, ast.Load) else m
                     out.append(S().visit(clone(n.elt)))
                 return ast.copy_location(ast.List(elts=out, ctx=ast.Load()), n)
+        # [E(u, v) for u, v in ((a, 1), (b, 2))]  ->  [E(a, 1), E(b, 2)]
+        g0 = n.generators[0] if len(n.generators) == 1 else None
+        if g0 is not None and not g0.ifs and not g0.is_async and isinstance(g0.iter, (ast.Tuple, ast.List)) and 1 <= len(g0.iter.elts) <= 8 \
+                and isinstance(g0.target, ast.Tuple) and all(isinstance(t, ast.Name) for t in g0.target.elts) \
+                and all(isinstance(r, (ast.Tuple, ast.List)) and len(r.elts) == len(g0.target.elts)
+                        and all(isinstance(e, (ast.Name, ast.Constant)) for e in r.elts) for r in g0.iter.elts) \
+                and not any(isinstance(x, (ast.Lambda, ast.ListComp, ast.GeneratorExp, ast.SetComp, ast.DictComp)) for x in ast.walk(n.elt)):
+            out = []
+            for r in g0.iter.elts:
+                bind = {t.id: e for t, e in zip(g0.target.elts, r.elts)}
+
+                class S2(ast.NodeTransformer):
+                    def visit_Name(self, m, bind=bind):
+                        return clone(bind[m.id]) if m.id in bind and isinstance(m.ctx, ast.Load) else m
+                out.append(S2().visit(clone(n.elt)))
+            return ast.copy_location(ast.List(elts=out, ctx=ast.Load()), n)
         return n
 
     def visit_IfExp(self, n):
@@ -242,6 +266,18 @@ class _E1(ast.NodeTransformer):
                 n.slice.elts = [as_slice(e) or e for e in n.slice.elts]
         elif as_slice(n.slice) is not None:
             n.slice = as_slice(n.slice)
+        # [a, b, c][1] -> b ; [a, b, c][1:] -> [b, c]      (a display of effect-free elements, constant bounds)
+        if isinstance(n.value, (ast.List, ast.Tuple)) and isinstance(n.ctx, ast.Load) and n.value.elts \
+                and not any(isinstance(e, ast.Starred) for e in n.value.elts) and all(_pure_expr(e) for e in n.value.elts):
+            k = n.slice
+            if isinstance(k, ast.UnaryOp) and isinstance(k.op, ast.USub) and isinstance(k.operand, ast.Constant) and type(k.operand.value) is int:
+                k = ast.Constant(value=-k.operand.value)
+            if isinstance(k, ast.Constant) and type(k.value) is int and -len(n.value.elts) <= k.value < len(n.value.elts):
+                return n.value.elts[k.value]
+            if isinstance(k, ast.Slice) and k.step is None and all(b is None or (isinstance(b, ast.Constant) and type(b.value) is int) for b in (k.lower, k.upper)):
+                lo = k.lower.value if k.lower is not None else None
+                hi = k.upper.value if k.upper is not None else None
+                return ast.copy_location(type(n.value)(elts=n.value.elts[lo:hi], ctx=ast.Load()), n)
         if isinstance(n.slice, ast.Constant) and type(n.slice.value) is int and n.slice.value == 0 and isinstance(n.value, ast.Call):
             call = n.value
             f = call.func
@@ -259,6 +295,15 @@ class _E1(ast.NodeTransformer):
             if k.arg in ('rowvar', 'keepdims', 'bias', 'endpoint', 'full_matrices', 'compute_uv', 'edge_truncate') and isinstance(k.value, ast.Constant) \
                     and type(k.value.value) is int and k.value.value in (0, 1):
                 k.value = ast.copy_location(ast.Constant(value=bool(k.value.value)), k.value)
+        if isinstance(f, ast.Name) and f.id in ('dict', 'list', 'tuple') and not n.args and not n.keywords:
+            return ast.copy_location({'dict': ast.Dict(keys=[], values=[]), 'list': ast.List(elts=[], ctx=ast.Load()),
+                                      'tuple': ast.Tuple(elts=[], ctx=ast.Load())}[f.id], n)
+        # max([.. for ..]) is max(.. for ..): a reducer that consumes its whole argument once sees the same elements in the same order
+        if len(n.args) == 1 and not n.keywords and isinstance(n.args[0], ast.ListComp) and (
+                (isinstance(f, ast.Name) and f.id in ('max', 'min', 'sum', 'sorted', 'tuple', 'list', 'set', 'frozenset')) or
+                (isinstance(f, ast.Attribute) and f.attr == 'join' and isinstance(f.value, ast.Constant))):
+            lc = n.args[0]
+            n.args = [ast.copy_location(ast.GeneratorExp(elt=lc.elt, generators=lc.generators), lc)]
         # (f if c else g)(args)  ->  f(args) if c else g(args)      (args without effects)
         if isinstance(f, ast.IfExp) and all(_pure_expr(a) for a in n.args) and all(_pure_expr(k.value) for k in n.keywords):
             a_ = ast.Call(func=f.body, args=[clone(x) for x in n.args], keywords=[ast.keyword(arg=k.arg, value=clone(k.value)) for k in n.keywords])
@@ -798,6 +843,91 @@ def _copy_prop(fn):
     return changed
 
 
+def _coalesce_copy(fn):
+    """`a = b` at the top level of the function where b is dead afterwards and a does not exist before: the two names are one variable
+    (a helper that re-binds its parameter, inlined).  a is renamed to b and the copy dropped."""
+    params = {x.arg for x in fn.args.posonlyargs + fn.args.args + fn.args.kwonlyargs} | \
+        {x.arg for x in (fn.args.vararg, fn.args.kwarg) if x is not None}
+    if any(isinstance(n, (ast.Global, ast.Nonlocal, ast.Lambda, ast.FunctionDef, ast.GeneratorExp, ast.ListComp, ast.SetComp, ast.DictComp))
+           for st in fn.body for n in ast.walk(st)):
+        return False
+    changed = False
+    for idx, st in enumerate(list(fn.body)):
+        if not (isinstance(st, ast.Assign) and len(st.targets) == 1 and isinstance(st.targets[0], ast.Name) and isinstance(st.value, ast.Name)):
+            continue
+        a, b = st.targets[0].id, st.value.id
+        if a == b or a in params:
+            continue
+        if fn.body[idx] is not st:
+            idx = next(k for k, x in enumerate(fn.body) if x is st)
+        if any(isinstance(x, ast.Name) and x.id == a for r in fn.body[:idx] for x in ast.walk(r)):
+            continue
+        if any(isinstance(x, ast.Name) and x.id == b for r in fn.body[idx + 1:] for x in ast.walk(r)):
+            continue
+        for r in fn.body[idx + 1:]:
+            for x in ast.walk(r):
+                if isinstance(x, ast.Name) and x.id == a:
+                    x.id = b
+        del fn.body[idx]
+        changed = True
+    return changed
+
+
+def _group_store(fn):
+    """if K in D: D[K][L] = V else: D[K] = {L: V}      and      D.setdefault(K, {}).update({L: V})
+    both read  D.setdefault(K, {})[L] = V   (K, L, V effect-free and not reading D)."""
+    changed = False
+
+    def canonical(D, K, L, V, at):
+        t = ast.Subscript(value=ast.Call(func=ast.Attribute(value=D, attr='setdefault', ctx=ast.Load()), args=[K, ast.Dict(keys=[], values=[])], keywords=[]),
+                          slice=L, ctx=ast.Store())
+        st = ast.Assign(targets=[t], value=V, type_comment=None)
+        ast.copy_location(st, at)
+        ast.fix_missing_locations(st)
+        return st
+
+    def ok(D, *es):
+        if not isinstance(D, ast.Name):
+            return False
+        return all(_pure_expr(e) and not any(isinstance(x, ast.Name) and x.id == D.id for x in ast.walk(e)) for e in es)
+    for owner in ast.walk(fn):
+        for fld in ('body', 'orelse', 'finalbody'):
+            body = getattr(owner, fld, None)
+            if not (isinstance(body, list) and body and isinstance(body[0], ast.stmt)) or isinstance(owner, ast.Lambda):
+                continue
+            for i, st in enumerate(body):
+                if isinstance(st, ast.If) and len(st.body) == 1 and len(st.orelse) == 1 and isinstance(st.test, ast.Compare) and len(st.test.ops) == 1 \
+                        and isinstance(st.test.ops[0], (ast.In, ast.NotIn)):
+                    have, new = (st.body[0], st.orelse[0]) if isinstance(st.test.ops[0], ast.In) else (st.orelse[0], st.body[0])
+                    K, D = st.test.left, st.test.comparators[0]
+                    if not (isinstance(have, ast.Assign) and isinstance(new, ast.Assign) and len(have.targets) == 1 and len(new.targets) == 1):
+                        continue
+                    th, tn = have.targets[0], new.targets[0]
+                    if not (isinstance(th, ast.Subscript) and isinstance(th.value, ast.Subscript) and isinstance(tn, ast.Subscript)):
+                        continue
+                    if not (ast.dump(th.value.value) == ast.dump(D) == ast.dump(tn.value) and ast.dump(th.value.slice) == ast.dump(K) == ast.dump(tn.slice)):
+                        continue
+                    if not (isinstance(new.value, ast.Dict) and len(new.value.keys) == 1 and new.value.keys[0] is not None
+                            and ast.dump(new.value.keys[0]) == ast.dump(th.slice) and ast.dump(new.value.values[0]) == ast.dump(have.value)):
+                        continue
+                    if not ok(D, K, th.slice, have.value):
+                        continue
+                    body[i] = canonical(D, K, th.slice, have.value, st)
+                    changed = True
+                elif isinstance(st, ast.Expr) and isinstance(st.value, ast.Call) and isinstance(st.value.func, ast.Attribute) and st.value.func.attr == 'update' \
+                        and len(st.value.args) == 1 and not st.value.keywords and isinstance(st.value.args[0], ast.Dict) and len(st.value.args[0].keys) == 1 \
+                        and st.value.args[0].keys[0] is not None:
+                    recv = st.value.func.value
+                    if isinstance(recv, ast.Call) and isinstance(recv.func, ast.Attribute) and recv.func.attr == 'setdefault' and len(recv.args) == 2 \
+                            and not recv.keywords and isinstance(recv.args[1], ast.Dict) and not recv.args[1].keys:
+                        D, K = recv.func.value, recv.args[0]
+                        L, V = st.value.args[0].keys[0], st.value.args[0].values[0]
+                        if ok(D, K, L, V):
+                            body[i] = canonical(D, K, L, V, st)
+                            changed = True
+    return changed
+
+
 def _tail_returns_of(body):
     """The Return statements in tail position of a statement list (last statement of the function body, of the branches of a tail if,
     of the body / handlers of a tail try without finally, of a tail with), or None when the list does not end in such a shape on a
@@ -1190,6 +1320,58 @@ def inline_new_helpers(fn, resolve, is_new, depth=2):
             return res
         return pre + put(body)
 
+    def hoist_nested(st):
+        """`T = a * h(x).m(a.shape)` with h a new helper of several statements: the call is given its own statement in front
+        (`_c1 = h(x)`), so that the statement-level inliner applies.  Only when everything the statement evaluates before the call is a
+        bare name or a constant (a helper cannot re-bind the caller's names, so reading them later is the same)."""
+        if isinstance(st, ast.Assign) and all(isinstance(t, (ast.Name, ast.Subscript, ast.Attribute)) for t in st.targets):
+            root = st.value
+        elif isinstance(st, ast.AugAssign) and isinstance(st.target, ast.Name):
+            root = st.value
+        elif isinstance(st, (ast.Return, ast.Expr)) and st.value is not None:
+            root = st.value
+        else:
+            return None
+        if isinstance(root, ast.Call) and resolve(root) is not None and is_new(resolve(root)):
+            return None                      # the whole right-hand side: handled below
+        order = []
+
+        def ev_order(e):
+            # evaluation order of the sub-expressions (operands before the operation)
+            if isinstance(e, (ast.IfExp, ast.BoolOp, ast.Lambda, ast.ListComp, ast.SetComp, ast.DictComp, ast.GeneratorExp, ast.NamedExpr)):
+                order.append(('stop', e))
+                return
+            for ch_ in ast.iter_child_nodes(e):
+                if isinstance(ch_, ast.expr):
+                    ev_order(ch_)
+                elif isinstance(ch_, ast.keyword):
+                    ev_order(ch_.value)
+                elif isinstance(ch_, (ast.Slice,)):
+                    ev_order(ch_)
+            order.append(('node', e))
+        ev_order(root)
+        if any(kind == 'stop' for kind, _ in order):
+            return None
+        for k, (kind, e) in enumerate(order):
+            if not isinstance(e, ast.Call):
+                continue
+            g = resolve(e)
+            if g is None or not is_new(g) or helper_expression(g) is not None:
+                continue
+            if not (inlinable(g) or inlinable(_nest_guards(g))):
+                return None
+            inside = {id(x) for x in ast.walk(e)}
+            if not all(isinstance(x, (ast.Name, ast.Constant)) for _, x in order[:k] if id(x) not in inside):
+                return None
+            counter[0] += 1
+            tmp = '_c%d_' % counter[0]
+            pre = ast.Assign(targets=[ast.Name(id=tmp, ctx=ast.Store())], value=e, type_comment=None)
+            ast.copy_location(pre, st)
+            ast.fix_missing_locations(pre)
+            _replace(st, e, ast.copy_location(ast.Name(id=tmp, ctx=ast.Load()), e))
+            return pre
+        return None
+
     def process(stmts, d):
         out = []
         changed = False
@@ -1224,6 +1406,12 @@ def inline_new_helpers(fn, resolve, is_new, depth=2):
                     changed = True
                     continue
             call, how, target = None, None, None
+            if d > 0:
+                pre = hoist_nested(st)
+                if pre is not None:
+                    pre2, _ = process([pre], d)
+                    out.extend(pre2)
+                    changed = True
             if isinstance(st, ast.Assign) and isinstance(st.value, ast.Call):
                 call, how, target = st.value, 'assign', st.targets
             elif isinstance(st, ast.Return) and isinstance(st.value, ast.Call):
@@ -1347,17 +1535,28 @@ def _pure_expr(e):
     return True
 
 
+_KWARG = [None]          # name of the ** parameter of the function being normalised
+
+
 def _total_expr(e):
     """Pure AND cannot raise: names, constants, identity tests, isinstance, getattr with a default."""
     if isinstance(e, (ast.Name, ast.Constant)):
         return True
-    if isinstance(e, ast.Tuple):
+    if isinstance(e, (ast.Tuple, ast.List)):
         return all(_total_expr(x) for x in e.elts)
+    if isinstance(e, ast.Dict):
+        # a display with literal keys: building it cannot fail (the name is substituted only where it is never mutated)
+        return all(isinstance(k, ast.Constant) for k in e.keys) and all(_total_expr(v) for v in e.values)
+    if isinstance(e, ast.Set):
+        return all(isinstance(x, ast.Constant) for x in e.elts)
     if isinstance(e, ast.BoolOp):
         return all(_total_expr(x) for x in e.values)
     if isinstance(e, ast.UnaryOp) and isinstance(e.op, ast.Not):
         return _total_expr(e.operand)
     if isinstance(e, ast.Compare):
+        if len(e.ops) == 1 and isinstance(e.ops[0], (ast.In, ast.NotIn)) and isinstance(e.left, ast.Constant) and isinstance(e.left.value, (str, int)) \
+                and isinstance(e.comparators[0], ast.Name) and e.comparators[0].id == _KWARG[0]:
+            return True                 # membership of a literal key in the ** dictionary
         return all(isinstance(o, (ast.Is, ast.IsNot)) for o in e.ops) and _total_expr(e.left) and all(_total_expr(c) for c in e.comparators)
     if isinstance(e, ast.Call) and isinstance(e.func, ast.Name) and not e.keywords:
         if e.func.id == 'getattr' and len(e.args) == 3:
@@ -1963,6 +2162,20 @@ def _default_override(fn):
                         and a.targets[0].id not in {x.id for x in ast.walk(b.test) if isinstance(x, ast.Name)} \
                         and a.targets[0].id not in {x.id for x in ast.walk(b.body[0].value) if isinstance(x, ast.Name)}:
                     body[i] = ast.copy_location(ast.Assign(targets=[a.targets[0]], value=ast.IfExp(test=b.test, body=b.body[0].value, orelse=a.value)), a)
+                    del body[i + 1]
+                    changed = True
+                    continue
+                # x = A; if c: x -= K     ->   x = A - K if c else A      (A, c, K without effects; c and K do not read x)
+                if isinstance(a, ast.Assign) and len(a.targets) == 1 and isinstance(a.targets[0], ast.Name) and _pure_expr(a.value) \
+                        and isinstance(b, ast.If) and not b.orelse and len(b.body) == 1 and isinstance(b.body[0], ast.AugAssign) \
+                        and isinstance(b.body[0].target, ast.Name) and b.body[0].target.id == a.targets[0].id and _pure_expr(b.test) and _pure_expr(b.body[0].value) \
+                        and a.targets[0].id not in {x.id for x in ast.walk(b.test) if isinstance(x, ast.Name)} \
+                        and a.targets[0].id not in {x.id for x in ast.walk(b.body[0].value) if isinstance(x, ast.Name)} \
+                        and a.targets[0].id not in {x.id for x in ast.walk(a.value) if isinstance(x, ast.Name)} \
+                        and not any(isinstance(x, (ast.Subscript, ast.Call)) for x in ast.walk(a.value)) and isinstance(a.value, ast.BinOp):
+                    combined = ast.BinOp(left=clone(a.value), op=b.body[0].op, right=b.body[0].value)
+                    body[i] = ast.fix_missing_locations(ast.copy_location(
+                        ast.Assign(targets=[a.targets[0]], value=ast.IfExp(test=b.test, body=combined, orelse=a.value)), a))
                     del body[i + 1]
                     changed = True
                     continue
@@ -2592,9 +2805,10 @@ def normal_form(fn, callee_info=None, consts=None):
     """A normalised private copy of the function definition node fn.  consts: {module-level NAME: python constant}."""
     c = clone(fn)
     c.decorator_list = list(c.decorator_list)
+    _KWARG[0] = c.args.kwarg.arg if c.args.kwarg else None
     from .normalize import unroll_table_loops
     try:
-        c2, nun = unroll_table_loops(c, None, max_rows=12)
+        c2, nun = unroll_table_loops(c, None, max_rows=12, pure=_pure_expr)
         if nun:
             c = c2
     except Exception:
@@ -2606,7 +2820,7 @@ def normal_form(fn, callee_info=None, consts=None):
     if c.body and isinstance(c.body[0], ast.Expr) and isinstance(c.body[0].value, ast.Constant) and isinstance(c.body[0].value.value, str):
         # a docstring is documentation, not behaviour (a rule that reads docstrings is given the current one, see roles._substitute_reference)
         c.body = c.body[1:] or [ast.Pass()]
-    for _ in range(6):
+    for _ in range(10):
         before = ast.dump(c)
         c = _E1(callee_info, c.args.kwarg.arg if c.args.kwarg else None).visit(c)
         for _cap in range(40):
@@ -2616,6 +2830,8 @@ def normal_form(fn, callee_info=None, consts=None):
             if not _inline_pass(c):
                 break
         _copy_prop(c)
+        _coalesce_copy(c)
+        _group_store(c)
         _getattr_default(c)
         _tail_returns(c)
         _tail_return_dedup(c)
@@ -2642,7 +2858,7 @@ def normal_form(fn, callee_info=None, consts=None):
         _forward_subst(c, getattr(consts, 'exprs', None))
         c = _FoldConst().visit(c)
         try:
-            c2, nun = unroll_table_loops(c, None, max_rows=12)
+            c2, nun = unroll_table_loops(c, None, max_rows=12, pure=_pure_expr)
             if nun:
                 c = c2
         except Exception:
@@ -2663,6 +2879,15 @@ def canon_expr(e):
     """A normalised private copy of an expression (comparison direction, folded negations, De Morgan, spellings): for rules that match
     the shape of a test."""
     return _E1(None).visit(clone(e))
+
+
+def canon_key(e):
+    """Text of the canonical form of an expression, operands of commutative operators in a fixed order: two spellings of one expression
+    get one key."""
+    c = _E1(None).visit(clone(e))
+    c = _FoldConst().visit(c)
+    c = _E2().visit(c)
+    return ast.unparse(c).replace(' ', '')
 
 
 def canon_block(stmts, callee_info=None):
@@ -2709,7 +2934,17 @@ def plain_argument_temps(fn):
             plain = all(isinstance(x, (ast.Name, ast.Attribute, ast.Subscript, ast.Constant, ast.expr_context, ast.Tuple, ast.Slice, ast.UnaryOp, ast.USub))
                         for x in ast.walk(v))
             free = {x.id for x in ast.walk(v) if isinstance(x, ast.Name)}
-            if plain and all(stores.get(x, 0) == 0 or (x in params and stores.get(x, 0) == 0) for x in free):
+            def steady(x, at=n):
+                if stores.get(x, 0) == 0:
+                    return True
+                if stores.get(x) != 1 or x in params:
+                    return False
+                # the variable of a loop that holds the temporary: one value per pass, as for the temporary
+                for lp in ast.walk(c):
+                    if isinstance(lp, ast.For) and any(isinstance(t, ast.Name) and t.id == x for t in ast.walk(lp.target)):
+                        return any(y is at for b in lp.body for y in ast.walk(b))
+                return False
+            if plain and all(steady(x) for x in free):
                 mapping[n.targets[0].id] = v
                 drop.add(id(n))
     if not mapping:
